@@ -109,12 +109,12 @@ fn impl_encode(arch: &str, start: usize, parts: &[Vec<u8>], max: usize) -> Outco
 
 /// One step of the inner reader's script: a chunk to deliver or a failing call.
 #[derive(Clone)]
-enum Ev {
+pub enum Ev {
     Data(Vec<u8>),
     Fail(u32),
 }
 
-fn parse_script(s: &str) -> Vec<Ev> {
+pub fn parse_script(s: &str) -> Vec<Ev> {
     if s == "." {
         return Vec::new();
     }
@@ -130,7 +130,7 @@ fn parse_script(s: &str) -> Vec<Ev> {
         .collect()
 }
 
-fn kind_of(code: u32) -> io::ErrorKind {
+pub fn kind_of(code: u32) -> io::ErrorKind {
     match code {
         1 => io::ErrorKind::InvalidData,
         2 => io::ErrorKind::InvalidInput,
@@ -141,8 +141,8 @@ fn kind_of(code: u32) -> io::ErrorKind {
 }
 
 /// Inner reader following a script (see Filter/BcjStream.v inner_read).
-struct ScriptReader {
-    evs: std::collections::VecDeque<Ev>,
+pub struct ScriptReader {
+    pub evs: std::collections::VecDeque<Ev>,
 }
 
 impl Read for ScriptReader {
@@ -168,7 +168,7 @@ impl Read for ScriptReader {
 /// The caller's loop (Filter/BcjStream.v bcj_drive): sizes cycled (4096 if none), a call failing
 /// with Interrupted is repeated, any other error ends the loop, Ok(0) for a non-empty destination
 /// ends it normally.  Returns the bytes obtained and the error that ended the loop, if any.
-fn drive<R: Read>(r: &mut R, sizes: &[usize], cap: usize) -> (Vec<u8>, Option<u32>) {
+pub fn drive<R: Read>(r: &mut R, sizes: &[usize], cap: usize) -> (Vec<u8>, Option<u32>) {
     let mut out = Vec::new();
     let mut i = 0usize;
     let mut buf = vec![0u8; sizes.iter().copied().max().unwrap_or(4096).max(1)];
@@ -217,7 +217,7 @@ fn impl_decode(arch: &str, start: usize, parts: &[Vec<u8>], sizes: &[usize]) -> 
     }
 }
 
-fn fmt_dec(o: &Outcome<(Vec<u8>, Option<u32>)>) -> String {
+pub fn fmt_dec(o: &Outcome<(Vec<u8>, Option<u32>)>) -> String {
     match o {
         Outcome::Ok((v, None)) => format!("OK {}", hex(v)),
         Outcome::Ok((v, Some(c))) => format!("ERR {} {}", c, hex(v)),
